@@ -181,4 +181,143 @@ split, missing key → unreachable, look up, validator false → failure, else i
 theorem C05_gen_call_shape :
     callSteps = [.ifEmpty_unreachable, .takeKey, .takeOptions, .ifMissing_unreachable, .lookup,
                  .ifValidatorFalse_failure, .invoke] := by decide
+
+open Primaite.Gen.RequestCore in
+/-- Totality of the key test: an element that cannot be a dictionary key (a list or dict in a key position) is answered
+`unreachable` / `False` like any other unknown name — in the model it simply is a key no manager has (`lookup` is total);
+in the code the membership test is guarded by `_is_hashable`, in `__call__` and in `check_valid`. -/
+theorem C05_gen_total_on_unhashable : callTotalOnUnhashable = true ∧ checkValidTotalOnUnhashable = true := by decide
+
+/-- The model's dispatch is total: EVERY request (any length, any elements — the wire form keeps the Python type of an
+element, so `1`, `"1"`, `None`, a list or a dict are different keys) resolves to exactly one of the three outcomes, and
+the two refusals are the only outcomes of a request whose first element is not a key of the manager or which is empty. -/
+theorem C05_dispatch_total (env : Env) (kids : Kids) (p : List Key) (d : Nat) :
+    (∃ d', dispatchK env kids p d = .unreachable d') ∨ (∃ d' v, dispatchK env kids p d = .failure d' v) ∨
+    (∃ h a, dispatchK env kids p d = .reached h a) := by
+  cases h : dispatchK env kids p d with
+  | unreachable d' => exact Or.inl ⟨d', rfl⟩
+  | failure d' v => exact Or.inr (Or.inl ⟨d', v, rfl⟩)
+  | reached hh a => exact Or.inr (Or.inr ⟨hh, a, rfl⟩)
+
+/-- an empty request and a request whose first element names nothing are `unreachable` at the current depth -/
+theorem C05_unknown_or_empty_unreachable (env : Env) (kids : Kids) (d : Nat) :
+    dispatchK env kids [] d = .unreachable d ∧
+    ∀ k rest, lookup k kids = none → dispatchK env kids (k :: rest) d = .unreachable d := by
+  refine ⟨by simp [dispatchK], ?_⟩
+  intro k rest h
+  simp [dispatchK, h]
+
+/-- the depth reported by a refusal never exceeds the length of the request: an over-long request is cut at the handler
+(its surplus elements are the handler's options), a short one ends `unreachable` at its own length -/
+theorem C05_depth_bounded (env : Env) (kids : Kids) (p : List Key) (d : Nat) :
+    (∀ d', dispatchK env kids p d = .unreachable d' → d ≤ d' ∧ d' ≤ d + p.length) ∧
+    (∀ d' v, dispatchK env kids p d = .failure d' v → d ≤ d' ∧ d' < d + p.length) := by
+  induction p generalizing kids d with
+  | nil => simp [dispatchK]
+  | cons k rest ih =>
+    simp only [dispatchK, List.length_cons]
+    cases hl : lookup k kids with
+    | none => simp
+    | some vs =>
+      obtain ⟨v, sub⟩ := vs
+      cases hv : env v rest with
+      | false => simp [hv]
+      | true =>
+        cases sub with
+        | leaf h => simp [hv]
+        | node kids' =>
+          simp only [hv, if_true]
+          obtain ⟨h1, h2⟩ := ih kids' (d + 1)
+          constructor
+          · intro d' hd; have := h1 d' hd; omega
+          · intro d' w hd; have := h2 d' w hd; omega
+
+example : dispatchK envOn exKids ["network", "o:%5B%22x%22%5D", "pc"] 0 = .unreachable 1 := by decide
+example : dispatchK envOn exKids [] 0 = .unreachable 0 := by decide
+example : dispatchK envOn exKids ["network", "node", "pc", "shutdown", "a", "b", "c", "d"] 0 = .reached 10 ["a", "b", "c", "d"] := by
+  decide
+
+/-! ### "every request is answered" with handlers AS THEY ARE (finding F-C05-2, open)
+
+In the theorems above a handler is a total function (`run`).  The code's handlers are not: 30 of them index or unpack their
+options unchecked and RAISE when the request carries fewer options than they read.  `execRK` models that: handler `h` reads
+`arity h` options and raises (`none`) when given fewer. -/
+
+/-- execution with handlers that raise on missing options; `none` = an exception escapes `apply_request` -/
+def execRK {σ} (env : Env) (arity : HId → Nat) (run : HId → List Key → σ → σ × Status) :
+    Kids → List Key → σ → Option (σ × Status)
+  | _, [], s => some (s, .unreachable)
+  | kids, k :: rest, s =>
+    match lookup k kids with
+    | none => some (s, .unreachable)
+    | some (v, sub) =>
+      if env v rest then
+        match sub with
+        | .leaf h => if rest.length < arity h then none else some (run h rest s)
+        | .node kids' => execRK env arity run kids' rest s
+      else some (s, .failure)
+
+/-- the FULL statement: every request submitted is answered (nothing escapes), whatever the tree, rules, handlers, state -/
+def C05_FullAnswered : Prop :=
+  ∀ (env : Env) (arity : HId → Nat) (run : HId → List Key → Unit → Unit × Status) (kids : Kids) (p : List Key),
+    (execRK env arity run kids p ()).isSome = true
+
+/-- the request carries the options its handler reads (decidable; excludes exactly the defect) -/
+def optionsSuffice (env : Env) (arity : HId → Nat) (kids : Kids) (p : List Key) : Bool :=
+  match dispatchK env kids p 0 with
+  | .reached h args => decide (arity h ≤ args.length)
+  | _ => true
+
+/-- PARTIAL: a request is answered — and exactly as the total-handler model says — whenever it is refused, or reaches a
+handler with at least the options that handler reads. -/
+theorem C05_answered_partial {σ} (env : Env) (arity : HId → Nat) (run : HId → List Key → σ → σ × Status)
+    (kids : Kids) (p : List Key) (s : σ) (h : optionsSuffice env arity kids p = true) :
+    execRK env arity run kids p s = some (execK env run kids p s) := by
+  unfold optionsSuffice at h
+  generalize hd : (0 : Nat) = d at h
+  clear hd
+  induction p generalizing kids d with
+  | nil => simp [execRK, execK]
+  | cons k rest ih =>
+    simp only [execRK, execK]
+    simp only [dispatchK] at h
+    cases hl : lookup k kids with
+    | none => simp
+    | some vs =>
+      obtain ⟨v, sub⟩ := vs
+      rw [hl] at h
+      cases hv : env v rest with
+      | false => simp [hv]
+      | true =>
+        simp only [hv, if_true] at h ⊢
+        cases sub with
+        | leaf hh =>
+          simp only at h ⊢
+          have : ¬ rest.length < arity hh := by
+            have := of_decide_eq_true h; omega
+          simp [this]
+        | node kids' => exact ih kids' (d + 1) h
+
+/-- refusals are always answered (the defect lives in handlers only) -/
+theorem C05_refusal_always_answered {σ} (env : Env) (arity : HId → Nat) (run : HId → List Key → σ → σ × Status)
+    (kids : Kids) (p : List Key) (s : σ) (h : (dispatchK env kids p 0).isReached = false) :
+    execRK env arity run kids p s = some (execK env run kids p s) := by
+  apply C05_answered_partial
+  unfold optionsSuffice
+  cases hd : dispatchK env kids p 0 with
+  | unreachable d => rfl
+  | failure d v => rfl
+  | reached hh a => rw [hd] at h; simp [Outcome.isReached] at h
+
+/-- COUNTEREXAMPLE (the witness the rig replays: `…/service/user-manager/add_user` without options): a handler that reads
+one option, reached by a request that carries none, raises. -/
+theorem C05_answered_counterexample : ¬ C05_FullAnswered := by
+  intro h
+  have := h (fun _ _ => true) (fun _ => 1) (fun _ _ s => (s, .success)) [("add_user", 0, .leaf 7)] ["add_user"]
+  simp [execRK, lookup] at this
+
+example : optionsSuffice envOn (fun _ => 1) exKids ["network", "node", "pc", "shutdown", "now"] = true := by decide
+example : optionsSuffice envOn (fun _ => 1) exKids ["network", "node", "pc", "shutdown"] = false := by decide
+example : optionsSuffice envOff (fun _ => 9) exKids ["network", "node", "pc", "shutdown"] = true := by decide
 end Primaite.Request
+
